@@ -12,7 +12,7 @@ T = {
          "Theorems for every table (any N>=3, any strictly increasing abscissae, any ordinates): knots reproduced, C1 at knots, derivatives 1-3 are those of the cubic, Steffen limiter box, monotone and bounded on every segment, linear/parabola exactness, bilinear hull/continuity/exactness. Tied to /repo on every run by comparing Interpolate/Derivative/2-D Interpolate of the compiled library with the compiled Lean model on generated tables.",
          "exact real arithmetic in the model; rounding-level overshoot is correspondence-only (tolerance K*eps*scale); NaN ordinates and the 1% extrapolation zone are covered by value correspondence only"),
  "C02": ("Lean 4 proof of the Ridder loop invariants over any function + trace correspondence (class C) + sign-change oracle",
-         "Theorems for every function f (no regularity), every bracket and accuracy: evaluations stay inside the bracket, the sign-change invariant and halving of the bracket, either order of the ends, zero ends, diagnostics for missing sign change/NaN, exactness on linear functions, and the accuracy clause for the repaired termination rule. Tied to /repo by comparing the evaluation trace and result of Find_Root with the model on generated functions/brackets; the oracle checks the sign change within the accuracy on the library's own output.",
+         "Theorems for every function f (no regularity), every bracket and accuracy: evaluations stay inside the bracket, the sign-change invariant and halving of the bracket, either order of the ends, zero ends, diagnostics for missing sign change/NaN, exactness on linear functions, the accuracy clause for the repaired termination rule, the iteration-limit bound, and the driver's own rounded-up rational square root as an instance of the square-root hypothesis. Tied to /repo by comparing the evaluation trace and result of Find_Root with the model on generated functions/brackets; the oracle checks the sign change within the accuracy on the library's own output.",
          "sqrt enters as a parameter with its algebraic property as hypothesis; floating-point rounding is absorbed by trace tolerances (margin-excused divergences are counted)"),
  "C03": ("Lean 4 proof by induction on the recursion depth of adaptive Simpson + trace/value correspondence + mpmath oracle",
          "Theorems for every depth/eps/interval: exact on every polynomial of degree <=5, swap/equal limits/sign of eps, evaluation locations, evaluation count <= 2^(depth+2)+1, value reuse invariant, tolerance budget; 4*eps bound conditional on the classical Simpson error term. Tied to /repo by comparing abscissae sequence, count and value of Integrate with the model.",
@@ -30,7 +30,7 @@ T = {
          "Proved: uniform family completely, non-negativity, sums/mixtures/likelihood identities, quantile inverts CDF given erf/invErf; remaining clauses by correspondence against definitions evaluated with mpmath.",
          "CDF = integral of pdf for transcendental families, tails, KDE normalisation: correspondence-only"),
  "C08": ("Lean 4 proof of the antiderivative/extrema/prefactor laws on the shared interpolation model + class B correspondence + sampling oracle",
-         "Proved: piece-wise antiderivative is the integral of the cubic, additive, antisymmetric, derivative = curve; extrema bound the curve given per-segment monotonicity (C01); prefactor scaling of either sign. Tied to /repo by comparing Integrate/Local_*/Global_* (1-D, 2-D) with the model.",
+         "Proved: piece-wise antiderivative is the integral of the cubic, additive, antisymmetric, derivative = curve; Local_Minimum/Maximum bound every curve value on [x1,x2] and are attained (composed with C01's monotonicity and C09's canonical index), min*(x2-x1) <= Integrate <= max*(x2-x1); prefactor scaling of either sign. Tied to /repo by comparing Integrate/Local_*/Global_* (1-D, 2-D) with the model.",
          "exact arithmetic; extrapolation zone by value correspondence only"),
  "C09": ("Lean 4 proof that Locate is a function of x alone from every cache state + class A/D correspondence on long histories",
          "Proved for every table, every search state and every history: the index search brackets x, is canonical (same index from hunting up, hunting down and bisection, also at knots), and every query answer is independent of the history. Tied to /repo by comparing Locate indices along call sequences of thousands of steps with the model and used objects/copies against fresh objects bit-for-bit.",
@@ -48,10 +48,10 @@ T = {
          "Proved: swap/equal limits for every method, unknown method -> diagnostic, nesting order per axis, separable => product, Monte-Carlo region layout, spherical wrapper integrand. Tied to /repo on asymmetric polynomial integrands with distinct limits per axis against exact rational integrals.",
          "accuracy of the Boost rules: correspondence-only"),
  "C14": ("Lean 4 proof of containment/accounting/history-independence + seeded self-differential correspondence",
-         "Proved: sample points inside the region, Miser accounting and sub-regions, constants exact (brute force, Miser), independence of the static dithering state after the repair, Vegas re-initialisation. Tied to /repo with a fixed random_device seed: results after arbitrary histories vs a fresh process bit-for-bit; recorded abscissae inside the region.",
+         "Proved: sample points inside the region (brute force; every Miser sample through the whole recursion), Miser accounting/totality/constants exact, independence of the static dithering state after the repair, Rebin keeps the Vegas grid increasing and ending at 1 without reading out of range, every Vegas array cell read is written first when init = 0. Tied to /repo with a fixed random_device seed: results after arbitrary histories vs a fresh process bit-for-bit; recorded abscissae inside the region.",
          "six-sigma accuracy and Vegas constants: correspondence-only; random_device interposed in the harness executable"),
  "C15": ("Lean 4 proof of Householder/QR algebra over Mathlib matrices + class B correspondence; eigenvector defect as known finding",
-         "Proved: Householder reflector symmetric orthogonal and maps to alpha*e1, Q*R = M with Q orthogonal for any reflector sequence, QR step is a similarity (trace/det invariant), Rayleigh fixed point. Tied to /repo by comparing Q, R, eigenvalues with the model / exact spectra.",
+         "Proved: Householder reflector symmetric orthogonal and maps to alpha*e1; for the executable list model Q*R = M, Q orthogonal, R upper triangular (the explicit zeroing is a no-op); every Eigenvalues iterate is orthogonally similar to M and a returned spectrum sums to the trace; Rayleigh fixed point. Tied to /repo by comparing Q, R, eigenvalues with the model / exact spectra.",
          "convergence of QR iteration and inverse iteration: correspondence-only; Eigensystem/Eigenvectors known finding by call site"),
  "C16": ("Lean 4 proof of the Rodrigues and spherical-frame identities + mpmath-glue correspondence",
          "Proved as polynomial identities for every unit axis and every (cos, sin) pair: proper orthogonality, fixed axis, right-handed turn, composition; spherical norm/polar angle/handedness including axes parallel and antiparallel to z. Tied to /repo on generated angles/axes.",
@@ -60,7 +60,7 @@ T = {
          "Proved: Round laws with the exponent as constrained parameter, Sign/Step/Floats_Equal laws, Dawson oddness, VSH table normalisation/orthogonality/selection rules for all l, m. Accuracy of Dawson/Erfi/Inv_Erf and point-wise VSH identities by correspondence against mpmath.",
          "Boost spherical harmonics and libm: trusted, compared against mpmath"),
  "C18": ("Lean 4 proof of the sample-count/draw-count/domain/acceptance logic + exact MT19937 prediction and fixed-seed statistical oracle",
-         "Proved for all (sample, thinning>=1, burn_in): exactly `sample` values, draw counts, domain containment, detailed balance, Knuth-Poisson equivalence. Tied to /repo by predicting generator draws with an exact MT19937 model, equal-state reproducibility (class D) and deterministic fixed-seed goodness-of-fit tests.",
+         "Proved for all (sample, thinning>=1, burn_in): exactly `sample` values, draw counts, domain containment, detailed balance; Knuth-Poisson equivalence for every mean including several exp(STEP) rescalings (with a proved tie witness). Tied to /repo by predicting generator draws with an exact MT19937 model, equal-state reproducibility (class D) and deterministic fixed-seed goodness-of-fit tests.",
          "distribution of the output: correspondence-only (KS/chi-square at fixed seeds)"),
  "C19": ("Lean 4 proof of the helper specifications + exhaustive class A correspondence on the property's grids",
          "Proved for all arguments: Workload_Distribution spec, Range, Linear_Space, closest-index optimality, list templates = library functions, statistics laws. Tied to /repo by exhaustive enumeration of (workers,tasks), integer ranges and small sorted lists, plus random value cases.",
